@@ -4,6 +4,7 @@ package db
 
 import (
 	"fmt"
+	"os"
 	"sort"
 	"strings"
 	"testing"
@@ -21,8 +22,8 @@ import (
 // serialised order of successful mutations of the document key, taken from the store log, decides.
 
 type c09Scenario struct {
-	Ops     []string `json:"ops"`     // per thread: xset1 | xset2 | xdel | get | put | feed | feed2
-	Initial string   `json:"initial"` // absent | sgdoc
+	Ops     []string `json:"ops"`     // per thread: xset1 | xset2 | xdel | get | syncdata | resync | put | feed | feed2
+	Initial string   `json:"initial"` // absent | sgdoc | sgdoc+ext (a gateway document overwritten externally, not yet imported)
 }
 
 func (s c09Scenario) name() string { return strings.Join(s.Ops, " || ") + "|initial=" + s.Initial }
@@ -34,9 +35,18 @@ func c09Build(t testing.TB, r *vreport.Report, sc c09Scenario) vsched.Scenario {
 	v := newVDB(t, DatabaseContextOptions{})
 	ctx, coll := v.ctx, v.coll
 	H := v.vb.H
+	if _, err := coll.UpdateSyncFun(ctx, `function(doc){ channel(doc.channels); }`); err != nil {
+		t.Fatalf("sync function: %v", err)
+	}
 	H.Enabled = true
 	initialGen := 0
 	if sc.Initial == "sgdoc" {
+		if _, _, err := coll.Put(ctx, c09Doc, Body{"channels": []string{"A"}, "v": "sg0"}); err != nil {
+			t.Fatalf("setup: %v", err)
+		}
+		initialGen = 1
+	}
+	if sc.Initial == "sgdoc+ext" {
 		if _, _, err := coll.Put(ctx, c09Doc, Body{"channels": []string{"A"}, "v": "sg0"}); err != nil {
 			t.Fatalf("setup: %v", err)
 		}
@@ -46,6 +56,11 @@ func c09Build(t testing.TB, r *vreport.Report, sc c09Scenario) vsched.Scenario {
 	il.collections[coll.GetCollectionID()] = *coll
 	xattrKeys := []string{base.SyncXattrName, base.VvXattrName, base.MouXattrName, base.GlobalXattrName}
 	startLog := len(H.Snapshot())
+	if sc.Initial == "sgdoc+ext" {
+		if err := coll.dataStore.SetRaw(ctx, c09Doc, 0, nil, []byte(`{"channels":["C"],"v":"ext0"}`)); err != nil {
+			t.Fatalf("setup external write: %v", err)
+		}
+	}
 	kind := make([]string, len(sc.Ops))
 	errs := make([]error, len(sc.Ops))
 	threads := make([]func(), len(sc.Ops))
@@ -55,7 +70,9 @@ func c09Build(t testing.TB, r *vreport.Report, sc c09Scenario) vsched.Scenario {
 		threads[i] = func() {
 			switch op {
 			case "xset1", "xset2":
-				errs[i] = coll.dataStore.SetRaw(ctx, c09Doc, 0, nil, []byte(fmt.Sprintf(`{"channels":["A"],"v":"%s-t%d"}`, op, i)))
+				// the two external bodies route to different channels, so that an import of a stale body is visible
+				ch := map[string]string{"xset1": "A", "xset2": "B"}[op]
+				errs[i] = coll.dataStore.SetRaw(ctx, c09Doc, 0, nil, []byte(fmt.Sprintf(`{"channels":["%s"],"v":"%s-t%d"}`, ch, op, i)))
 			case "xdel":
 				err := coll.dataStore.Delete(ctx, c09Doc)
 				if err != nil && !base.IsDocNotFoundError(err) {
@@ -64,6 +81,18 @@ func c09Build(t testing.TB, r *vreport.Report, sc c09Scenario) vsched.Scenario {
 			case "get":
 				_, err := coll.GetDocument(ctx, c09Doc, DocUnmarshalAll)
 				if err != nil && !base.IsDocNotFoundError(err) {
+					errs[i] = err
+				}
+			case "syncdata":
+				// metadata read used by the changes feed and the channel-history API; imports on demand
+				_, err := coll.GetDocSyncData(ctx, c09Doc)
+				if err != nil && !base.IsDocNotFoundError(err) {
+					errs[i] = err
+				}
+			case "resync":
+				// a metadata-only rewrite by the gateway (resync with regenerated sequence): neither an import nor a new revision
+				err := coll.ResyncDocument(ctx, c09Doc, nil, true)
+				if err != nil && err != base.ErrUpdateCancel && !base.IsDocNotFoundError(err) {
 					errs[i] = err
 				}
 			case "put":
@@ -153,7 +182,11 @@ func c09Build(t testing.TB, r *vreport.Report, sc c09Scenario) vsched.Scenario {
 				case "SetRaw", "Delete":
 					muts = append(muts, mut{"E", rec.Thread, rec.Op})
 				case "WriteUpdateWithXattrs.write":
-					muts = append(muts, mut{"G", rec.Thread, rec.Op})
+					if rec.Thread >= 0 && rec.Thread < len(kind) && kind[rec.Thread] == "resync" {
+						muts = append(muts, mut{"R", rec.Thread, rec.Op}) // metadata-only rewrite: neither an import nor a revision
+					} else {
+						muts = append(muts, mut{"G", rec.Thread, rec.Op})
+					}
 				}
 			}
 			var order []string
@@ -165,9 +198,16 @@ func c09Build(t testing.TB, r *vreport.Report, sc c09Scenario) vsched.Scenario {
 					lastE = i
 					continue
 				}
+				if m.class == "R" {
+					continue
+				}
 				gWrites++
 				isPutThread := m.thread >= 0 && m.thread < len(kind) && kind[m.thread] == "put"
-				prevIsE := i > 0 && muts[i-1].class == "E"
+				prev := i - 1
+				for prev >= 0 && muts[prev].class == "R" {
+					prev--
+				}
+				prevIsE := prev >= 0 && muts[prev].class == "E"
 				if !prevIsE {
 					// a gateway write not directly after an external write is legitimate only as the put of a put thread
 					if !isPutThread {
@@ -197,6 +237,13 @@ func c09Build(t testing.TB, r *vreport.Report, sc c09Scenario) vsched.Scenario {
 				}
 				return c09Done(viol)
 			}
+			if os.Getenv("VERIF_DEBUG") != "" {
+				rawD, xD, casD, _ := coll.dataStore.GetWithXattrs(ctx, c09Doc, xattrKeys)
+				fmt.Printf("DEBUG final doc: current=%s deleted=%v revs=%v body=%q raw=%q cas=%d sync=%s\n", doc.GetRevTreeID(), doc.IsDeleted(), c05Revs(doc), func() string { b, _ := doc.BodyBytes(ctx); return string(b) }(), rawD, casD, xD[base.SyncXattrName])
+				for _, rec := range H.Snapshot()[startLog:] {
+					fmt.Printf("DEBUG   op %+v\n", rec)
+				}
+			}
 			gen, _ := ParseRevID(ctx, doc.GetRevTreeID())
 			if gen != initialGen+gWrites && !historyDestroyed {
 				viol["C09/revision-count"] = fmt.Sprintf("the document is at generation %d (history %v), expected %d initial + %d gateway/import writes: order %v [%s]", gen, c05Revs(doc), initialGen, gWrites, order, name)
@@ -211,6 +258,18 @@ func c09Build(t testing.TB, r *vreport.Report, sc c09Scenario) vsched.Scenario {
 					if g != pg+1 {
 						viol["C09/import-parent-not-previous-revision"] = fmt.Sprintf("revision %s has parent %s [%s]", id, ri.Parent, name)
 					}
+				}
+			}
+			// every external set must have been imported by the time the gateway has read the document
+			if lastE >= 0 && muts[lastE].op == "SetRaw" {
+				imported := false
+				for _, m := range muts[lastE+1:] {
+					if m.class == "G" {
+						imported = true
+					}
+				}
+				if !imported {
+					viol["C09/external-write-never-imported"] = fmt.Sprintf("the last external write is not followed by any import although the gateway has read the document since (current revision %s): order %v [%s]", doc.GetRevTreeID(), order, name)
 				}
 			}
 			// body: latest external write if it was not followed by a gateway put
@@ -228,11 +287,52 @@ func c09Build(t testing.TB, r *vreport.Report, sc c09Scenario) vsched.Scenario {
 						viol["C09/external-write-not-visible"] = fmt.Sprintf("gateway shows a deleted document although the last external write was a set: order %v [%s]", order, name)
 					} else if string(bodyBytes) != string(raw) {
 						viol["C09/body-not-latest-external-write"] = fmt.Sprintf("gateway body %s, bucket body %s: order %v [%s]", bodyBytes, raw, order, name)
+					} else {
+						// the import that made the external write visible must have been an import of THAT write: channel
+						// routing, the revision id (a digest of the imported body) and the cached revision all derive from it
+						var parsed struct {
+							Channels []string `json:"channels"`
+						}
+						_ = base.JSONUnmarshal(raw, &parsed)
+						var active []string
+						for name, rem := range doc.Channels {
+							if rem == nil {
+								active = append(active, name)
+							}
+						}
+						sort.Strings(active)
+						sort.Strings(parsed.Channels)
+						if strings.Join(active, ",") != strings.Join(parsed.Channels, ",") {
+							viol["C09/imported-revision-routed-by-another-body"] = fmt.Sprintf("document is in channels %v, its body %s assigns %v: order %v [%s]", active, raw, parsed.Channels, order, name)
+						}
+						cur := doc.GetRevTreeID()
+						g, _ := ParseRevID(ctx, cur)
+						if want := CreateRevIDWithBytes(g, doc.History[cur].Parent, raw); want != cur {
+							viol["C09/imported-revision-id-not-from-the-imported-body"] = fmt.Sprintf("current revision %s, the digest of (generation, parent %s, body %s) is %s: order %v [%s]", cur, doc.History[cur].Parent, raw, want, order, name)
+						}
+						if rev, err := coll.GetRev(ctx, c09Doc, "", false, nil); err == nil && string(rev.BodyBytes) != string(raw) {
+							viol["C09/cached-revision-body-differs"] = fmt.Sprintf("the revision served for the current revision has body %s, the bucket holds %s: order %v [%s]", rev.BodyBytes, raw, order, name)
+						}
 					}
 				}
 			}
 			if lastE >= 0 && muts[lastE].op == "Delete" && lastE == len(muts)-2 && !doc.IsDeleted() {
-				viol["C09/external-delete-not-imported"] = fmt.Sprintf("last external operation was a delete followed by one import, but the gateway shows a live document: order %v [%s]", order, name)
+				// root cause: did the importing thread read the document before the delete (its import raced with it)?
+				cause := "import-started-after-the-delete"
+				importer := muts[len(muts)-1].thread
+				sawDelete := false
+				for _, rec := range H.Snapshot()[startLog:] {
+					if rec.Key != c09Doc {
+						continue
+					}
+					if rec.Op == "Delete" && rec.Applied {
+						sawDelete = true
+					}
+					if rec.Thread == importer && !rec.Write && !sawDelete {
+						cause = "import-started-before-the-delete"
+					}
+				}
+				viol["C09/external-delete-not-imported/"+cause] = fmt.Sprintf("last external operation was a delete followed by one import, but the gateway shows a live document: order %v [%s]", order, name)
 			}
 			if !historyDestroyed {
 				v.accountSequences(viol, "C09/sequences", name, []string{c09Doc}, nil)
@@ -258,7 +358,7 @@ type c09Replay struct {
 func TestVerifC09(t *testing.T) {
 	r := vreport.Begin("C09")
 	defer r.Finish(t)
-	r.Rule("scenarios = 2-3 threads from {external set (two bodies), external delete, gateway read, gateway write, feed import of a snapshot delivered once or twice} on one document that is initially absent or a gateway document; every schedule with at most B preemptions at storage operations on a fresh database; non-trivial = distinct (scenario, schedule)")
+	r.Rule("scenarios = 2-3 threads from {external set (two bodies routed to different channels), external delete, gateway read, gateway metadata read, metadata-only gateway rewrite (resync), gateway write, feed import of a snapshot delivered once or twice} on one document that is initially absent, a gateway document, or a gateway document overwritten externally and not yet imported; every schedule with at most B preemptions at storage operations on a fresh database; non-trivial = distinct (scenario, schedule)")
 	r.Assume("automatic import is off: the feed path is driven by calling the real importListener.ProcessFeedEvent with an event built from a snapshot of the document (what the mutation feed delivers); user-xattr-only external writes are not in the alphabet")
 	oldFreq := MaxSequenceIncrFrequency
 	defer func() { MaxSequenceIncrFrequency = oldFreq }()
@@ -289,11 +389,17 @@ func TestVerifC09(t *testing.T) {
 			jobs = append(jobs, job{c09Scenario{Ops: p, Initial: init}, 2})
 		}
 	}
+	for _, p := range [][]string{{"get", "xset2"}, {"syncdata", "xset2"}, {"syncdata", "xset1"}, {"resync", "get"}, {"resync", "xset2"}, {"resync", "feed"}, {"syncdata", "feed"}, {"get", "xdel"}} {
+		jobs = append(jobs, job{c09Scenario{Ops: p, Initial: "sgdoc+ext"}, 2})
+	}
+	for _, p := range [][]string{{"xset1", "syncdata"}, {"xset1", "resync"}} {
+		jobs = append(jobs, job{c09Scenario{Ops: p, Initial: "sgdoc"}, 2})
+	}
 	tb := 1
 	if r.Thorough() {
 		tb = 2
 	}
-	triples := [][]string{{"xset1", "get", "feed"}, {"xset1", "feed", "feed2"}, {"xset1", "put", "feed"}, {"xset1", "xset2", "get"}, {"xset1", "get", "get"}, {"xdel", "get", "feed"}, {"xset1", "put", "get"}}
+	triples := [][]string{{"xset1", "syncdata", "xset2"}, {"xset1", "resync", "get"}, {"xset1", "get", "feed"}, {"xset1", "feed", "feed2"}, {"xset1", "put", "feed"}, {"xset1", "xset2", "get"}, {"xset1", "get", "get"}, {"xdel", "get", "feed"}, {"xset1", "put", "get"}}
 	for _, p := range triples {
 		for _, init := range []string{"absent", "sgdoc"} {
 			jobs = append(jobs, job{c09Scenario{Ops: p, Initial: init}, tb})
